@@ -412,7 +412,7 @@ func checkC03(c *Ctx) {
 		"close pairs across seams, plus the direct never-overestimate test (no sign change inside the ball of radius |f(p)|). " +
 		"Non-trivial = parameter vector whose points hit >= 3 branch regions / tree with >= 2 operators; distinct = description.")
 	c.Assume("offset preservation is checked for outward offsets of convex primitives (the only case where f-r is the Euclidean distance of the offset body); cone rounding up to the largest radius that keeps both inset radii >= 0")
-	nExact := c.Pick(2400, 60000)
+	nExact := c.Pick(6000, 80000)
 	nPts := c.Pick(400, 1500)
 	regionsSeen := map[string]map[string]bool{}
 	parallelFor(nExact, func(i int) {
@@ -471,7 +471,7 @@ func checkC03(c *Ctx) {
 	c.Obs("branch_regions_hit_per_primitive", rc)
 
 	// (b) Lipschitz / never-overestimate on compositions
-	nTrees := c.Pick(600, 15000)
+	nTrees := c.Pick(4000, 40000)
 	nPairs := c.Pick(1500, 4000)
 	maxDepth := c.Pick(3, 5)
 	parallelFor(nTrees, func(i int) {
@@ -499,7 +499,7 @@ func checkC03(c *Ctx) {
 		}
 	})
 	c03Pinned(c)
-	c.Floor(c.Pick(800, 20000))
+	c.Floor(c.Pick(4000, 40000))
 }
 
 type lipWitness struct {
